@@ -14,6 +14,9 @@ Fixpoint idx_filter {A} (bad : A -> bool) (i : N) (l : list A) : list N :=
 
 Definition join_mismatches (cs : list join_case) : list N := idx_filter (fun c => negb (join_agrees c)) 0 cs.
 Definition key_mismatches (cs : list key_case) : list N := idx_filter (fun c => negb (key_agrees c)) 0 cs.
+Definition oid_mismatches (cs : list oid_case) : list N := idx_filter (fun c => negb (oid_agrees c)) 0 cs.
+(* the property on the observation alone: an accepted order id is short enough to be framed *)
+Definition oid_violations (cs : list oid_case) : list N := idx_filter (fun c => oc_accepted c && (255 <? oc_len c)) 0 cs.
 
 Fixpoint seglist_prefixb (a b : list bytes) : bool :=
   match a, b with
